@@ -867,6 +867,28 @@ func c11BookkeepingAtomic() bool {
 	return ok
 }
 
+// c11ReadyToStreamGuard: rsm.StateMachine.ReadyToStream() answers, for an on-disk state
+// machine, exactly `<s>.GetLastApplied() >= <s>.onDiskInitIndex` (its last return statement):
+// no stream while the replica is still catching up with its own on-disk state.
+func c11ReadyToStreamGuard() bool {
+	p := loadPkg("internal/rsm")
+	fd := p.Func("StateMachine", "ReadyToStream")
+	_, r := c11Recv(fd)
+	if len(fd.Body.List) == 0 {
+		return false
+	}
+	ret, ok := fd.Body.List[len(fd.Body.List)-1].(*ast.ReturnStmt)
+	if !ok || len(ret.Results) != 1 {
+		return false
+	}
+	be, ok := ret.Results[0].(*ast.BinaryExpr)
+	if !ok || be.Op != token.GEQ {
+		return false
+	}
+	c, ok := be.X.(*ast.CallExpr)
+	return ok && c11Sel(c.Fun) == r+".GetLastApplied" && c11Sel(be.Y) == r+".onDiskInitIndex"
+}
+
 func init() {
 	str := func(s string) string { return fmt.Sprintf("%q%%string", s) }
 	register(&Unit{Name: "C11", Imports: "From Coq Require Import Bool.", Facts: []Fact{
@@ -957,6 +979,10 @@ func init() {
 		{Name: "apply_bookkeeping_in_update_section", Gen: func() string {
 			return "(* rsm.StateMachine update/handleBatch: setApplied/setOnDiskIndex run in the critical section of StateMachine.mu in which the user Update was called *)\n" +
 				defBool("apply_bookkeeping_in_update_section", c11BookkeepingAtomic())
+		}},
+		{Name: "ready_to_stream_checks_applied", Gen: func() string {
+			return "(* rsm.StateMachine.ReadyToStream: on-disk: GetLastApplied() >= onDiskInitIndex, nothing else *)\n" +
+				defBool("ready_to_stream_checks_applied", c11ReadyToStreamGuard())
 		}},
 		{Name: "apply_checks_stopped", Gen: func() string {
 			return "(* engine.processApplies tests node.stopped() before node.handleTask *)\n" +
